@@ -263,7 +263,7 @@ def cases(tier, seed):
         d = rnd.randint(2, 6)
         yield {"prog": rprog(d, rnd.randint(1, 4)), "gen": "random", "topcatch": True}
     # 5. informational: re-entered, pre-constructed context objects (outside the quantifier)
-    for n in names[:: 3 if tier == "quick" else 1]:
+    for n in names:
         yield {"prog": [N(n, 0)], "gen": "reenter-info"}
 
 
@@ -457,11 +457,27 @@ def run_case(case, ctx):
         c = _S["bycls"][name]
         kw = _dec(_S["choices"][name][0])
         obj = c(kw["value"]) if _S["kinds"][name] == "value" else c(**kw)
-        with obj:
+        for depth in (2, 3):
+            # one pre-constructed object entered while it is already active: what is visible INSIDE is informational only
+            # (the object saves one previous value), but once every block has exited the defaults must be back
+            with obj:
+                with obj:
+                    if depth == 3:
+                        with obj:
+                            pass
+            end = snapshot()
+            bad = [k for k in end if end[k] != _S["defaults"][k]]
+            ctx.expect("reentered_object_end_equals_defaults", not bad, f"after {depth} nested entries of one {name} object: " + "; ".join(f"{k}={end[k]!r} default={_S['defaults'][k]!r}" for k in bad[:4]), fields=bad, owners=sorted({_owner(k) for k in bad}))
+            # sequential reuse of the same object
             with obj:
                 pass
-        ctx.info["reenter_same_object_restores" if snapshot() == _S["defaults"] else "reenter_same_object_leaks(info only)"] += 1
-        _reset()
+            with obj:
+                pass
+            end = snapshot()
+            bad = [k for k in end if end[k] != _S["defaults"][k]]
+            ctx.expect("reentered_object_end_equals_defaults", not bad, f"after sequential reuse of one {name} object: " + "; ".join(f"{k}={end[k]!r}" for k in bad[:4]), fields=bad, owners=sorted({_owner(k) for k in bad}))
+            _reset()
+        ctx.cell(("reenter", name), nontrivial=True)
         return
     _S["active"] = True
     try:
